@@ -149,6 +149,11 @@ def one_case(rng, res):
     patterns = rng.choice([[], [], ["*.pyc"], ["sub"], ["*.txt"]])
     dirs = [p + "/" for p, n in T.all_paths(tree) if n[0] == "d"]
     lstrip = [rng.choice(dirs)] if dirs and rng.random() < 0.3 else None
+    if lstrip and rng.random() < 0.4:
+        # the same prefix spelt in a way that is not normalised: recorded names are normalised, so it strips nothing -
+        # neither when recording nor when matching
+        d0 = lstrip[0]
+        lstrip = [rng.choice(["./" + d0, d0 + "/", d0.rstrip("/") + "//", "zz/../" + d0])]
     local_tree, edits = edit_tree(rng, tree)
     paths = gen_paths(rng, tree, local_tree)
     import in_toto.settings as st
